@@ -39,7 +39,7 @@ func boundaryInts(bits uint) []*big.Int {
 	add(hi)
 	add(new(big.Int).Add(lo, big.NewInt(1)))
 	add(new(big.Int).Sub(hi, big.NewInt(1)))
-	for k := uint(1); k <= 64; k++ {
+	for _, k := range []uint{7, 8, 15, 16, 31, 32, 63, 64} {
 		p := pow2(k)
 		for _, d := range []int64{-1, 0, 1} {
 			add(new(big.Int).Add(p, big.NewInt(d)))
@@ -88,10 +88,7 @@ func directedScalarValues(s string) []*aval {
 		for _, z := range bigs("0", "1", "127", "128", "129", "-1", "-128", "-129") {
 			r = append(r, aInt(z))
 		}
-		for k := uint(7); k <= 136; k += 1 {
-			if k%8 > 1 && k%8 < 7 {
-				continue
-			}
+		for _, k := range []uint{7, 8, 15, 16, 63, 64, 127, 128} {
 			p := pow2(k)
 			for _, d := range []int64{-1, 0, 1} {
 				r = append(r, aInt(new(big.Int).Add(p, big.NewInt(d))), aInt(new(big.Int).Add(new(big.Int).Neg(p), big.NewInt(d))))
@@ -151,17 +148,21 @@ func vint(a int64) *aval { return aInt64(a) }
 func cmdDirected() {
 	g := &gen{r: rand.New(rand.NewSource(hlib.Seed() + 7))}
 	n := 0
+	obs := false
 	emit := func(t *ctype, r *rep, a *aval, ver primitive.ProtocolVersion) {
 		rec := runCase(fmt.Sprintf("d%d", n), t, r, a, ver)
 		rec.Kind = "directed"
+		if obs {
+			rec.Kind = "observation" // degenerate types without fields: reported, not judged
+		}
 		n++
 		hlib.Emit(rec)
 	}
 	// (1) every scalar x every accepted representation able to hold the value (value and pointer form) x boundary values
 	for _, s := range scalarNames {
 		t := scalarT(s)
-		for _, a := range directedScalarValues(s) {
-			for _, sr := range scalarReps(s) {
+		for ai, a := range directedScalarValues(s) {
+			for si, sr := range scalarReps(s) {
 				if !sr.ok(a) {
 					continue
 				}
@@ -170,7 +171,7 @@ func cmdDirected() {
 				}
 				r := &rep{t: t, kind: "scalar:" + sr.name, gt: sr.gt, s: sr}
 				emit(t, r, a, primitive.ProtocolVersion4)
-				if sr.gt != tBigPtr && len(a.bs) < 1000 {
+				if sr.gt != tBigPtr && len(a.bs) < 1000 && (ai+si)%3 == 0 {
 					emit(t, ptrTo(r), a, primitive.ProtocolVersion2)
 				}
 			}
@@ -212,7 +213,8 @@ func cmdDirected() {
 		{udtT([]string{}), &aval{kind: "udt", elems: []*aval{}}},
 		{listT(tupleT()), &aval{kind: "list", elems: []*aval{{kind: "tuple", elems: []*aval{}}}}},
 	}
-	for _, c := range types {
+	for ci, c := range types {
+		obs = ci >= len(types)-3
 		for _, ver := range []primitive.ProtocolVersion{primitive.ProtocolVersion2, primitive.ProtocolVersion3, primitive.ProtocolVersion5} {
 			emit(c.t, g.plan(c.t, []*aval{c.a}, false, true), c.a, ver)
 			for k := 0; k < 6; k++ {
@@ -220,6 +222,7 @@ func cmdDirected() {
 			}
 		}
 	}
+	obs = false
 	// (3) size boundaries of the v2 format: 65535 / 65536 elements; an element of 65535 / 65536 bytes
 	ti8 := scalarT("STinyint")
 	for _, cnt := range []int{65535, 65536} {
@@ -240,6 +243,14 @@ func cmdDirected() {
 		m := &aval{kind: "map", pairs: [][2]*aval{{vint(1), aBytes(make([]byte, sz))}}}
 		tm := mapT(i32, scalarT("SBlob"))
 		emit(tm, g.plan(tm, []*aval{m}, false, true), m, primitive.ProtocolVersion2)
+	}
+	// (3b) a Go map with a NaN key: the extractor looks every key up again (MapIndex), which never finds a NaN
+	{
+		tm := mapT(scalarT("SDouble"), i32)
+		m := &aval{kind: "map", pairs: [][2]*aval{{aFloat(0x7ff8000000000000), vint(5)}}}
+		rec := runCase("nan0", tm, g.plan(tm, []*aval{m}, false, true), m, primitive.ProtocolVersion4)
+		rec.Kind = "nan-key"
+		hlib.Emit(rec)
 	}
 	// (4) specification-formatted bytes that are not what the encoder emits must decode to the value they denote (C12, second sentence)
 	specDecode()
